@@ -79,9 +79,14 @@ fn run_model(s: &Scenario) -> Obs {
 
 pub fn check_scenario(s: &Scenario) -> Check {
     let want = run_model(s);
-    let first = run_impl(s);
+    let first = match std::panic::catch_unwind(|| run_impl(s)) {
+        Ok(o) => o,
+        Err(_) => return viol("C14 panic", format!("scenario {s:?}: the tag store panicked (documented result {want:?})")),
+    };
     for _ in 0..3 {
-        let again = run_impl(s);
+        let Ok(again) = std::panic::catch_unwind(|| run_impl(s)) else {
+            return viol("C14 panic", format!("scenario {s:?}: the tag store panicked on a fresh store"));
+        };
         if again != first {
             return viol(
                 "C14 nondeterministic",
